@@ -219,7 +219,7 @@ def destroySrc (s : St) (i : SrcId) : St :=
   match s.srcs[i]? with
   | some x =>
     let s1 := s.updSrc i fun x => { x with registered := false, polled := false }
-    if x.autoclose && !x.isSub then s1.emit (.close s!"fd:{x.key}") else s1
+    if x.autoclose && !x.isSub then s1.emit (.close (.fd x.key)) else s1
   | none => s
 
 /-- `poll_set_new_evt(RM)` then removal from the registry -/
@@ -307,7 +307,7 @@ def manageSrcsRm (s : St) (m : ModId) (stop : Bool) : St :=
   | some md =>
     if stop then
       -- PS source first: pending messages are destroyed, the read end of the pipe is closed
-      let s1 := if md.pipe.isSome then (flushDestroy s m).emit (.close "pipe-r") else s
+      let s1 := if md.pipe.isSome then (flushDestroy s m).emit (.close .pipeR) else s
       let s2 := s1.updMod m fun md => { md with pipePolled := false }
       (sortSrcs s md.srcs).foldl (fun s i => removeSrc s m i) s2
     else
@@ -332,7 +332,7 @@ def resetModule (s : St) (m : ModId) : St :=
   match s.mods[m]? with
   | none => s
   | some md =>
-    let s1 := if md.pipe.isSome then s.emit (.close "pipe-w") else s
+    let s1 := if md.pipe.isSome then s.emit (.close .pipeW) else s
     let s2 := md.subs.foldl (fun s i => removeSrc s m i) s1
     let s3 := destroyEvts s2 md.stash []
     let s4 := destroyEvts s3 md.batch []
@@ -761,7 +761,7 @@ def addSrc (s : St) (m : ModId) (x : Src) : St × Int :=
   match findSrc s m x.kind x.key x.role with
   | some _ =>
     -- rejected duplicate: a descriptor duplicated on request is closed again
-    (if x.dup then s.emit (.close s!"dup:{x.key}") else s, EEXIST)
+    (if x.dup then s.emit (.close (.dup x.key)) else s, EEXIST)
   | none =>
     -- kernel: a descriptor can be in the context's poll set only once (epoll_ctl fails with EEXIST);
     -- the registration is rolled back and leaves no trace
